@@ -714,6 +714,107 @@ float_harnesses!(c05_h5_arith_all_float32, c05_h5_cmp_all_float32, f32, u32, Flo
 float_harnesses!(c05_h5_arith_all_float64, c05_h5_cmp_all_float64, f64, u64, Float64, FloatType::Float64, 4);
 
 
+/// Float operands from a sparse set (sign, one of 8 exponent fields covering zero/subnormal, the
+/// smallest and a middle normal, the three largest finite binades, and infinity/NaN, 8 symbolic
+/// mantissa bits at the top or the bottom of the field): all four operations including Div, on
+/// inputs where overflow to infinity, underflow, NaN and signed zeros happen. With few symbolic
+/// bits the solver also decides the query when the implementation's circuit differs from the
+/// reference's (a seeded change that computes binary32 operations through binary64 made the
+/// all-bit-patterns harness time out instead of failing).
+macro_rules! float_sparse_harness {
+    ($name:ident, $fty:ty, $bty:ty, $variant:ident, $ftype:expr, $expbits:expr, $manbits:expr) => {
+        #[kani::proof]
+        #[kani::unwind(3)]
+        #[kani::stub(std::hash::RandomState::new, fixed_random_state)]
+        #[kani::stub(random_int, no_random_int)]
+        #[kani::stub(<SemValue as std::clone::Clone>::clone, clone_thunk_only)]
+        fn $name() {
+            let operand = || -> $bty {
+                let sign: bool = kani::any();
+                let e: u8 = kani::any();
+                let m: u8 = kani::any();
+                let low: bool = kani::any();
+                let emax: $bty = (1 << $expbits) - 1;
+                let exp: $bty = match e & 7 {
+                    | 0 => 0,
+                    | 1 => 1,
+                    | 2 => emax / 2,
+                    | 3 => emax / 2 + 1,
+                    | 4 => emax - 3,
+                    | 5 => emax - 2,
+                    | 6 => emax - 1,
+                    | _ => emax,
+                };
+                let man: $bty = if low { m as $bty } else { (m as $bty) << ($manbits - 8) };
+                ((sign as $bty) << ($expbits + $manbits)) | (exp << $manbits) | man
+            };
+            let a = operand();
+            let b = operand();
+            let check = |op: FloatOperation| {
+                let mut world = World::new();
+                let (x, y) = (<$fty>::from_bits(a), <$fty>::from_bits(b));
+                let want: $fty = match op {
+                    | FloatOperation::Add => x + y,
+                    | FloatOperation::Sub => x - y,
+                    | FloatOperation::Mul => x * y,
+                    | _ => x / y,
+                };
+                let out = ManuallyDrop::new(world.invoke(
+                    BuiltinValueRole::Float($ftype, op),
+                    vec![
+                        ZValue::Literal(Literal::Float(FloatLiteral::$variant(a))),
+                        ZValue::Literal(Literal::Float(FloatLiteral::$variant(b))),
+                    ],
+                ));
+                match &*out {
+                    | Ok(c) => match returned(c) {
+                        | Some(ZValue::Literal(Literal::Float(FloatLiteral::$variant(r)))) => {
+                            if want.is_nan() {
+                                assert!(<$fty>::from_bits(*r).is_nan(), "NaN result stays NaN");
+                            } else {
+                                assert!(*r == want.to_bits(), "float arithmetic is the IEEE-754 operation at this width, bit for bit");
+                            }
+                        }
+                        | _ => assert!(false, "float arithmetic must return a literal of the operand width"),
+                    },
+                    | Err(_) => assert!(false, "float arithmetic must not exit"),
+                }
+                kani::cover!(want.is_infinite() && x.is_finite() && y.is_finite(), "finite operands overflow to infinity");
+                std::mem::forget(world);
+            };
+            let which: u8 = kani::any();
+            match which {
+                | 0 => check(FloatOperation::Add),
+                | 1 => check(FloatOperation::Sub),
+                | 2 => check(FloatOperation::Mul),
+                | _ => check(FloatOperation::Div),
+            }
+        }
+    };
+}
+
+//@ id: c05_h5_arith_sparse_float32
+//@ property: C05
+//@ tier: quick
+//@ encodes: BuiltinRuntime::invoke (dispatch), impls::float_arithmetic, float_arithmetic_result! (all four operations)
+//@ sym: two sparse binary32 operands (sign, one of 8 exponent fields incl. 0, 1, the three largest finite ones and 255, 8 symbolic mantissa bits at the top or bottom), op in {Add,Sub,Mul,Div}
+//@ oracle: the Rust operator on f32; bits equal unless NaN; in particular overflow yields an infinity and never a panic
+//@ bounds: 2 x 13 symbolic bits; unwind 3
+//@ stubs: as c05_h3_arith_int8
+//@ replay: playback
+float_sparse_harness!(c05_h5_arith_sparse_float32, f32, u32, Float32, FloatType::Float32, 8, 23);
+
+//@ id: c05_h5_arith_sparse_float64
+//@ property: C05
+//@ tier: quick
+//@ encodes: BuiltinRuntime::invoke (dispatch), impls::float_arithmetic, float_arithmetic_result! (all four operations)
+//@ sym: two sparse binary64 operands (sign, one of 8 exponent fields, 8 symbolic mantissa bits at the top or bottom), op in {Add,Sub,Mul,Div}
+//@ oracle: the Rust operator on f64; bits equal unless NaN
+//@ bounds: 2 x 13 symbolic bits; unwind 3
+//@ stubs: as c05_h3_arith_int8
+//@ replay: playback
+float_sparse_harness!(c05_h5_arith_sparse_float64, f64, u64, Float64, FloatType::Float64, 11, 52);
+
 //@ id: c05_h3_arith_full_int16
 //@ property: C05
 //@ tier: thorough
